@@ -40,193 +40,199 @@ def run(index, rep, tier):
     rep.rule("R12.4", "no shared mutable defaults: no mutable default argument and no class-level mutable container mutated through instances in the data-model classes")
 
     # ---- R12.1
-    funcs = []
-    for m in COPY_MODULES:
-        for f in index.functions_in_module(m):
-            if f.name in COPY_NAMES or f.qualname in COPY_BRANCH_INITS:
-                funcs.append(f)
-    ncalls = 0
-    for f in funcs:
-        dcs = [c for c in calls_in(f.node) if norm(c.func) == "copy.deepcopy"]
-        for c in dcs:
-            ncalls += 1
-            m = _memo_arg(c)
-            ok = m is not None and isinstance(m, ast.Name) and "memo" in m.id
-            rep.check(ok, "R12.1", f.qualname, "deepcopy without memo: " + norm(c)[:70], fn_where(f, c), "%s: `%s` passes the memo" % (f.name, norm(c)[:50]),
-                      "%s calls `%s` without the memo: substructure shared between attributes (a node reachable twice, a taxon referenced by several nodes) is duplicated instead of being copied once, and the copy's parts no longer refer to each other" % (f.qualname, norm(c)[:70]))
-        # delegation to Annotable.__deepcopy__ passes memo
-        for c in calls_in(f.node):
-            if norm(c.func).endswith("Annotable.__deepcopy__"):
+    with rep.section("R12.1"):
+        funcs = []
+        for m in COPY_MODULES:
+            for f in index.functions_in_module(m):
+                if f.name in COPY_NAMES or f.qualname in COPY_BRANCH_INITS:
+                    funcs.append(f)
+        ncalls = 0
+        for f in funcs:
+            dcs = [c for c in calls_in(f.node) if norm(c.func) == "copy.deepcopy"]
+            for c in dcs:
                 ncalls += 1
-                m = get_kwarg(c, "memo") or (c.args[1] if len(c.args) > 1 else None)
-                rep.check(m is not None and "memo" in norm(m), "R12.1", f.qualname, "delegation without memo: " + norm(c)[:60], fn_where(f, c), "%s delegates to Annotable.__deepcopy__ with its memo" % f.qualname,
-                          "%s delegates to Annotable.__deepcopy__ without forwarding its memo: a namespace-scoped copy loses the pre-seeded namespace/taxa and deep-copies them" % f.qualname)
-        if f.name == "__deepcopy__":
-            news = [n for n in walk_no_nested(f.node) if isinstance(n, ast.Assign) and isinstance(n.value, ast.Call) and (call_name(n.value) == "__new__" or (isinstance(n.value.func, ast.Attribute) and norm(n.value.func) == "self.__class__"))]
-            if news and dcs:
-                cfg = cfg_of(f)
-                newvar = norm(news[0].targets[0])
+                m = _memo_arg(c)
+                ok = m is not None and isinstance(m, ast.Name) and "memo" in m.id
+                rep.check(ok, "R12.1", f.qualname, "deepcopy without memo: " + norm(c)[:70], fn_where(f, c), "%s: `%s` passes the memo" % (f.name, norm(c)[:50]),
+                          "%s calls `%s` without the memo: substructure shared between attributes (a node reachable twice, a taxon referenced by several nodes) is duplicated instead of being copied once, and the copy's parts no longer refer to each other" % (f.qualname, norm(c)[:70]))
+            # delegation to Annotable.__deepcopy__ passes memo
+            for c in calls_in(f.node):
+                if norm(c.func).endswith("Annotable.__deepcopy__"):
+                    ncalls += 1
+                    m = get_kwarg(c, "memo") or (c.args[1] if len(c.args) > 1 else None)
+                    rep.check(m is not None and "memo" in norm(m), "R12.1", f.qualname, "delegation without memo: " + norm(c)[:60], fn_where(f, c), "%s delegates to Annotable.__deepcopy__ with its memo" % f.qualname,
+                              "%s delegates to Annotable.__deepcopy__ without forwarding its memo: a namespace-scoped copy loses the pre-seeded namespace/taxa and deep-copies them" % f.qualname)
+            if f.name == "__deepcopy__":
+                news = [n for n in walk_no_nested(f.node) if isinstance(n, ast.Assign) and isinstance(n.value, ast.Call) and (call_name(n.value) == "__new__" or (isinstance(n.value.func, ast.Attribute) and norm(n.value.func) == "self.__class__"))]
+                if news and dcs:
+                    cfg = cfg_of(f)
+                    newvar = norm(news[0].targets[0])
 
-                def registers(n, newvar=newvar):
-                    return n.kind == "stmt" and isinstance(n.ast, ast.Assign) and norm(n.ast.targets[0]) == "memo[id(self)]" and norm(n.ast.value) == newvar
+                    def registers(n, newvar=newvar):
+                        return n.kind == "stmt" and isinstance(n.ast, ast.Assign) and norm(n.ast.targets[0]) == "memo[id(self)]" and norm(n.ast.value) == newvar
 
-                def obtained(n):
-                    # `other = memo[id(self)]` succeeded: already registered by the caller
-                    return n.kind == "stmt" and isinstance(n.ast, ast.Assign) and norm(n.ast.value) == "memo[id(self)]"
-                for c in dcs:
-                    cn = node_of_ast(cfg, c)
-                    # `other = memo[id(self)]` establishes registration only when it completes normally (not on its KeyError edge)
-                    reach = cfg.reach([cfg.entry], avoid=lambda n: n is not cn and registers(n), follow_exc=True,
-                                      edge_ok=lambda s_, l_, d_: not (obtained(s_) and l_ != "e"))
-                    ok = cn is not None and all(x is not cn for x in reach)
-                    rep.check(ok, "R12.1", f.qualname, "memo[id(self)] registered before " + norm(c)[:40], fn_where(f, c), "%s registers the new object in the memo before `%s`" % (f.qualname, norm(c)[:40]),
-                              "%s deep-copies an attribute (`%s`) before registering the new object under memo[id(self)]: a back-reference from the attribute to the object (node -> edge -> node) produces a second copy of the object" % (f.qualname, norm(c)[:50]))
-        # _annotations skipped + copied after
-        annotable = f.cls is not None and index.is_subclass(f.cls, DM + "basemodel.Annotable")
-        loops = [l for l in walk_no_nested(f.node) if isinstance(l, ast.For) and norm(l.iter).endswith(".__dict__")] if annotable else []
-        for l in loops:
-            skip = any(isinstance(i, ast.If) and "'_annotations'" in norm(i.test) and any(isinstance(x, ast.Continue) for x in i.body) for i in l.body) or \
-                any(isinstance(i, ast.If) and "'_annotations'" in norm(i.test) and "!=" in norm(i.test) for i in l.body)
-            after = [c for c in calls_in(f.node) if call_name(c) == "deep_copy_annotations_from" and c.lineno > l.lineno]
-            okm = bool(after) and all((get_kwarg(c, "memo") is not None and "memo" in norm(get_kwarg(c, "memo"))) or (len(c.args) > 1 and "memo" in norm(c.args[1])) for c in after)
-            rep.check(skip and okm, "R12.1", f.qualname, "_annotations handled separately", fn_where(f, l), "%s skips _annotations in the attribute loop and copies annotations afterwards with the memo" % f.qualname,
-                      "%s does not skip `_annotations` in its attribute loop or does not call deep_copy_annotations_from(..., memo) afterwards: attribute-bound annotations of the copy keep pointing at the source object" % f.qualname)
-    rep.floor("R12.1", "deepcopy call sites in copy-protocol functions", 15, ncalls)
-    rep.floor("R12.1", "copy-protocol functions", 18, len(funcs))
-    dca = index.function(DM + "basemodel.Annotable.deep_copy_annotations_from")
-    retarget = [n for n in walk_no_nested(dca.node) if isinstance(n, ast.Assign) and norm(n.targets[0]).endswith("._value") and "self" in names_in(n.value)]
-    rep.check(bool(retarget), "R12.1", dca.qualname, "bound attributes re-targeted", fn_where(dca), "attribute-bound annotations are re-targeted to the copy", "deep_copy_annotations_from no longer re-targets attribute-bound annotations to the copy")
+                    def obtained(n):
+                        # `other = memo[id(self)]` succeeded: already registered by the caller
+                        return n.kind == "stmt" and isinstance(n.ast, ast.Assign) and norm(n.ast.value) == "memo[id(self)]"
+                    for c in dcs:
+                        cn = node_of_ast(cfg, c)
+                        # `other = memo[id(self)]` establishes registration only when it completes normally (not on its KeyError edge)
+                        reach = cfg.reach([cfg.entry], avoid=lambda n: n is not cn and registers(n), follow_exc=True,
+                                          edge_ok=lambda s_, l_, d_: not (obtained(s_) and l_ != "e"))
+                        ok = cn is not None and all(x is not cn for x in reach)
+                        rep.check(ok, "R12.1", f.qualname, "memo[id(self)] registered before " + norm(c)[:40], fn_where(f, c), "%s registers the new object in the memo before `%s`" % (f.qualname, norm(c)[:40]),
+                                  "%s deep-copies an attribute (`%s`) before registering the new object under memo[id(self)]: a back-reference from the attribute to the object (node -> edge -> node) produces a second copy of the object" % (f.qualname, norm(c)[:50]))
+            # _annotations skipped + copied after
+            annotable = f.cls is not None and index.is_subclass(f.cls, DM + "basemodel.Annotable")
+            loops = [l for l in walk_no_nested(f.node) if isinstance(l, ast.For) and norm(l.iter).endswith(".__dict__")] if annotable else []
+            for l in loops:
+                skip = any(isinstance(i, ast.If) and "'_annotations'" in norm(i.test) and any(isinstance(x, ast.Continue) for x in i.body) for i in l.body) or \
+                    any(isinstance(i, ast.If) and "'_annotations'" in norm(i.test) and "!=" in norm(i.test) for i in l.body)
+                after = [c for c in calls_in(f.node) if call_name(c) == "deep_copy_annotations_from" and c.lineno > l.lineno]
+                okm = bool(after) and all((get_kwarg(c, "memo") is not None and "memo" in norm(get_kwarg(c, "memo"))) or (len(c.args) > 1 and "memo" in norm(c.args[1])) for c in after)
+                rep.check(skip and okm, "R12.1", f.qualname, "_annotations handled separately", fn_where(f, l), "%s skips _annotations in the attribute loop and copies annotations afterwards with the memo" % f.qualname,
+                          "%s does not skip `_annotations` in its attribute loop or does not call deep_copy_annotations_from(..., memo) afterwards: attribute-bound annotations of the copy keep pointing at the source object" % f.qualname)
+        rep.floor("R12.1", "deepcopy call sites in copy-protocol functions", 15, ncalls)
+        rep.floor("R12.1", "copy-protocol functions", 18, len(funcs))
+        dca = index.function(DM + "basemodel.Annotable.deep_copy_annotations_from")
+        retarget = [n for n in walk_no_nested(dca.node) if isinstance(n, ast.Assign) and norm(n.targets[0]).endswith("._value") and "self" in names_in(n.value)]
+        rep.check(bool(retarget), "R12.1", dca.qualname, "bound attributes re-targeted", fn_where(dca), "attribute-bound annotations are re-targeted to the copy", "deep_copy_annotations_from no longer re-targets attribute-bound annotations to the copy")
 
     # ---- R12.2
-    pop = index.function(DM + "taxonmodel.TaxonNamespace.populate_memo_for_taxon_namespace_scoped_copy")
-    asg = {norm(n.targets[0]): norm(n.value) for n in walk_no_nested(pop.node) if isinstance(n, ast.Assign)}
-    ploops = [l for l in walk_no_nested(pop.node) if isinstance(l, ast.For) and norm(l.iter) in ("self._taxa", "self")]
-    lv = norm(ploops[0].target) if ploops else "?"
-    ok = asg.get("memo[id(self)]") == "self" and asg.get("memo[id(%s)]" % lv) == lv and bool(ploops)
-    rep.check(ok, "R12.2", pop.qualname, "maps %s" % asg, fn_where(pop), "populate_memo maps the namespace and every member taxon to itself", "populate_memo_for_taxon_namespace_scoped_copy no longer maps the namespace and each of its taxa to themselves: %s" % asg)
-    for cq in SCOPED:
-        f = index.function(cq + ".taxon_namespace_scoped_copy")
-        cfg = cfg_of(f)
-        def _m(c):
-            a = get_kwarg(c, "memo") or (c.args[0] if c.args else None)
-            return norm(a) if a is not None else None
-        pops = [n for n in cfg.nodes if any(call_name(c) == "populate_memo_for_taxon_namespace_scoped_copy" and _m(c) for c in node_calls(n))]
-        dcp = [n for n in cfg.nodes if any(call_name(c) == "__deepcopy__" and _m(c) for c in node_calls(n))]
-        mset = {_m(c) for n in pops + dcp for c in node_calls(n) if call_name(c) in ("populate_memo_for_taxon_namespace_scoped_copy", "__deepcopy__")}
-        if len(mset) != 1:
-            pops = []
-        ids = {n.id for n in pops}
-        ok = bool(pops) and bool(dcp) and all(cfg.dominated_by(d, lambda n: n.id in ids) for d in dcp)
-        rep.check(ok, "R12.2", f.qualname, "populate dominates __deepcopy__(memo=memo)", fn_where(f), "%s pre-seeds the memo with its namespace before deep-copying with that memo" % f.qualname,
-                  "%s no longer pre-seeds the memo with the namespace and its taxa before `__deepcopy__(memo=memo)`: the 'namespace-scoped' copy gets its own copy of the namespace and taxa" % f.qualname)
-        g = index.function(cq + "._clone_from")
-        cfg = cfg_of(g)
-        dc = [n for n in cfg.nodes if any(norm(c.func) == "copy.deepcopy" and _memo_arg(c) is not None and isinstance(_memo_arg(c), ast.Name) for c in node_calls(n))]
-        mv = [norm(_memo_arg(c)) for n in dc for c in node_calls(n) if norm(c.func) == "copy.deepcopy"]
-        mv = mv[0] if mv else "memo"
-        loops = [l for l in walk_no_nested(g.node) if isinstance(l, ast.For) and "taxon_namespace" in norm(l.iter)]
-        lvars = {norm(l.target) for l in loops}
-        nsmap = [n for n in cfg.nodes if n.kind == "stmt" and isinstance(n.ast, ast.Assign) and norm(n.ast.targets[0]).startswith(mv + "[id(") and "taxon_namespace" in norm(n.ast.targets[0])]
-        txmap = [n for n in cfg.nodes if n.kind == "stmt" and isinstance(n.ast, ast.Assign) and any(norm(n.ast.targets[0]) == "%s[id(%s)]" % (mv, v) for v in lvars)]
-        nid = {n.id for n in nsmap}
-        tid = {n.id for n in txmap}
-        ok = bool(dc) and bool(nsmap) and len(txmap) >= 2 and all(cfg.dominated_by(d, lambda n: n.id in nid) for d in dc)
-        # both branches of the namespace comparison map every taxon (loop bodies)
-        ok = ok and len(loops) >= 2 and all(any(isinstance(x, ast.Assign) and norm(x.targets[0]) == "%s[id(%s)]" % (mv, norm(l.target)) for x in ast.walk(l)) for l in loops)
-        rep.check(ok, "R12.2", g.qualname, "namespace and taxa mapped before deepcopy", fn_where(g), "%s maps the namespace and every taxon in the memo before its deepcopy" % g.qualname,
-                  "%s no longer maps the source namespace and each of its taxa in the memo before `copy.deepcopy(src, memo)`: the copy constructor duplicates (or mis-shares) the namespace and taxa" % g.qualname)
-        kinds = []
-        for l in loops:
-            lv_ = norm(l.target)
-            for x in ast.walk(l):
-                if isinstance(x, ast.Assign) and norm(x.targets[0]) == "%s[id(%s)]" % (mv, lv_):
-                    if norm(x.value) == lv_:
-                        kinds.append("itself")
-                    else:
-                        src = [d for d in ast.walk(l) if isinstance(d, ast.Assign) and norm(d.targets[0]) == norm(x.value)]
-                        kinds.append("require_taxon(label)" if src and isinstance(src[0].value, ast.Call) and call_name(src[0].value) == "require_taxon" else "other:" + norm(x.value))
-        rep.check(sorted(kinds) == ["itself", "require_taxon(label)"], "R12.2", g.qualname, "taxon mapping kinds %s" % sorted(kinds), fn_where(g), "same namespace: taxon -> itself; other namespace: taxon -> require_taxon(label)", "%s maps source taxa to %s" % (g.qualname, sorted(kinds)))
+    with rep.section("R12.2"):
+        pop = index.function(DM + "taxonmodel.TaxonNamespace.populate_memo_for_taxon_namespace_scoped_copy")
+        asg = {norm(n.targets[0]): norm(n.value) for n in walk_no_nested(pop.node) if isinstance(n, ast.Assign)}
+        ploops = [l for l in walk_no_nested(pop.node) if isinstance(l, ast.For) and norm(l.iter) in ("self._taxa", "self")]
+        lv = norm(ploops[0].target) if ploops else "?"
+        ok = asg.get("memo[id(self)]") == "self" and asg.get("memo[id(%s)]" % lv) == lv and bool(ploops)
+        rep.check(ok, "R12.2", pop.qualname, "maps %s" % asg, fn_where(pop), "populate_memo maps the namespace and every member taxon to itself", "populate_memo_for_taxon_namespace_scoped_copy no longer maps the namespace and each of its taxa to themselves: %s" % asg)
+        for cq in SCOPED:
+            f = index.function(cq + ".taxon_namespace_scoped_copy")
+            cfg = cfg_of(f)
+            def _m(c):
+                a = get_kwarg(c, "memo") or (c.args[0] if c.args else None)
+                return norm(a) if a is not None else None
+            pops = [n for n in cfg.nodes if any(call_name(c) == "populate_memo_for_taxon_namespace_scoped_copy" and _m(c) for c in node_calls(n))]
+            dcp = [n for n in cfg.nodes if any(call_name(c) == "__deepcopy__" and _m(c) for c in node_calls(n))]
+            mset = {_m(c) for n in pops + dcp for c in node_calls(n) if call_name(c) in ("populate_memo_for_taxon_namespace_scoped_copy", "__deepcopy__")}
+            if len(mset) != 1:
+                pops = []
+            ids = {n.id for n in pops}
+            ok = bool(pops) and bool(dcp) and all(cfg.dominated_by(d, lambda n: n.id in ids) for d in dcp)
+            rep.check(ok, "R12.2", f.qualname, "populate dominates __deepcopy__(memo=memo)", fn_where(f), "%s pre-seeds the memo with its namespace before deep-copying with that memo" % f.qualname,
+                      "%s no longer pre-seeds the memo with the namespace and its taxa before `__deepcopy__(memo=memo)`: the 'namespace-scoped' copy gets its own copy of the namespace and taxa" % f.qualname)
+            g = index.function(cq + "._clone_from")
+            cfg = cfg_of(g)
+            dc = [n for n in cfg.nodes if any(norm(c.func) == "copy.deepcopy" and _memo_arg(c) is not None and isinstance(_memo_arg(c), ast.Name) for c in node_calls(n))]
+            mv = [norm(_memo_arg(c)) for n in dc for c in node_calls(n) if norm(c.func) == "copy.deepcopy"]
+            mv = mv[0] if mv else "memo"
+            loops = [l for l in walk_no_nested(g.node) if isinstance(l, ast.For) and "taxon_namespace" in norm(l.iter)]
+            lvars = {norm(l.target) for l in loops}
+            nsmap = [n for n in cfg.nodes if n.kind == "stmt" and isinstance(n.ast, ast.Assign) and norm(n.ast.targets[0]).startswith(mv + "[id(") and "taxon_namespace" in norm(n.ast.targets[0])]
+            txmap = [n for n in cfg.nodes if n.kind == "stmt" and isinstance(n.ast, ast.Assign) and any(norm(n.ast.targets[0]) == "%s[id(%s)]" % (mv, v) for v in lvars)]
+            nid = {n.id for n in nsmap}
+            tid = {n.id for n in txmap}
+            ok = bool(dc) and bool(nsmap) and len(txmap) >= 2 and all(cfg.dominated_by(d, lambda n: n.id in nid) for d in dc)
+            # both branches of the namespace comparison map every taxon (loop bodies)
+            ok = ok and len(loops) >= 2 and all(any(isinstance(x, ast.Assign) and norm(x.targets[0]) == "%s[id(%s)]" % (mv, norm(l.target)) for x in ast.walk(l)) for l in loops)
+            rep.check(ok, "R12.2", g.qualname, "namespace and taxa mapped before deepcopy", fn_where(g), "%s maps the namespace and every taxon in the memo before its deepcopy" % g.qualname,
+                      "%s no longer maps the source namespace and each of its taxa in the memo before `copy.deepcopy(src, memo)`: the copy constructor duplicates (or mis-shares) the namespace and taxa" % g.qualname)
+            kinds = []
+            for l in loops:
+                lv_ = norm(l.target)
+                for x in ast.walk(l):
+                    if isinstance(x, ast.Assign) and norm(x.targets[0]) == "%s[id(%s)]" % (mv, lv_):
+                        if norm(x.value) == lv_:
+                            kinds.append("itself")
+                        else:
+                            src = [d for d in ast.walk(l) if isinstance(d, ast.Assign) and norm(d.targets[0]) == norm(x.value)]
+                            kinds.append("require_taxon(label)" if src and isinstance(src[0].value, ast.Call) and call_name(src[0].value) == "require_taxon" else "other:" + norm(x.value))
+            rep.check(sorted(kinds) == ["itself", "require_taxon(label)"], "R12.2", g.qualname, "taxon mapping kinds %s" % sorted(kinds), fn_where(g), "same namespace: taxon -> itself; other namespace: taxon -> require_taxon(label)", "%s maps source taxa to %s" % (g.qualname, sorted(kinds)))
 
     # ---- R12.5: the three copy constructors perform the same state updates
-    rep.rule("R12.5", "clone agreement: Tree/TreeList/CharacterMatrix._clone_from perform the same state updates on self and the memo (they are textual copies of one routine; a change to one that is not made to the others is a divergence)")
-    sigs = {}
-    for cq in SCOPED:
-        g = index.function(cq + "._clone_from")
-        src = g.params[1] if len(g.params) > 1 else None
-        canon = canonical_locals(g)
-        sig = set()
-        for w in writes_in(g.node):
-            base = w.base_text
-            txt = norm_stmt(w.stmt) if w.kind != "mutcall" else norm(w.call)
-            for nm, c in canon.items():
-                txt = re.sub(r"\b%s\b" % re.escape(nm), c, txt)
-            if src:
-                txt = re.sub(r"\b%s\b" % re.escape(src), "$src", txt)
-            sig.add((w.kind, txt[:120]))
-        sigs[cq] = (g, sig)
-    allsig = [v[1] for v in sigs.values()]
-    for cq, (g, sig) in sigs.items():
-        others = [v[1] for k, v in sigs.items() if k != cq]
-        agree_elsewhere = all(o == others[0] for o in others)
-        diff = sorted((sig - others[0]) | (others[0] - sig))
-        ok = sig == others[0] or not agree_elsewhere
-        rep.check(ok, "R12.5", g.qualname, "state updates differ from the sibling copy constructors: %s" % "; ".join(t for k, t in diff)[:100], fn_where(g),
-                  "%s performs the same %d state updates as its siblings" % (g.qualname, len(sig)),
-                  "%s differs from the other two copy constructors in its state updates (%s): the deep copy's state must be adopted by sharing the instance dict (`self.__dict__ = t.__dict__`) so that objects inside the copy that refer to the temporary (attribute-bound annotations) stay bound to the live attributes of the new object" % (g.qualname, "; ".join("%s `%s`" % d for d in diff)[:300]))
-    if len({frozenset(x) for x in allsig}) == 3:
-        rep.check(False, "R12.5", SCOPED[0] + "._clone_from", "all three copy constructors differ", fn_where(sigs[SCOPED[0]][0]), "", "the three _clone_from implementations all differ in their state updates")
+    with rep.section("R12.5: the three copy constructors perform the same state updates"):
+        rep.rule("R12.5", "clone agreement: Tree/TreeList/CharacterMatrix._clone_from perform the same state updates on self and the memo (they are textual copies of one routine; a change to one that is not made to the others is a divergence)")
+        sigs = {}
+        for cq in SCOPED:
+            g = index.function(cq + "._clone_from")
+            src = g.params[1] if len(g.params) > 1 else None
+            canon = canonical_locals(g)
+            sig = set()
+            for w in writes_in(g.node):
+                base = w.base_text
+                txt = norm_stmt(w.stmt) if w.kind != "mutcall" else norm(w.call)
+                for nm, c in canon.items():
+                    txt = re.sub(r"\b%s\b" % re.escape(nm), c, txt)
+                if src:
+                    txt = re.sub(r"\b%s\b" % re.escape(src), "$src", txt)
+                sig.add((w.kind, txt[:120]))
+            sigs[cq] = (g, sig)
+        allsig = [v[1] for v in sigs.values()]
+        for cq, (g, sig) in sigs.items():
+            others = [v[1] for k, v in sigs.items() if k != cq]
+            agree_elsewhere = all(o == others[0] for o in others)
+            diff = sorted((sig - others[0]) | (others[0] - sig))
+            ok = sig == others[0] or not agree_elsewhere
+            rep.check(ok, "R12.5", g.qualname, "state updates differ from the sibling copy constructors: %s" % "; ".join(t for k, t in diff)[:100], fn_where(g),
+                      "%s performs the same %d state updates as its siblings" % (g.qualname, len(sig)),
+                      "%s differs from the other two copy constructors in its state updates (%s): the deep copy's state must be adopted by sharing the instance dict (`self.__dict__ = t.__dict__`) so that objects inside the copy that refer to the temporary (attribute-bound annotations) stay bound to the live attributes of the new object" % (g.qualname, "; ".join("%s `%s`" % d for d in diff)[:300]))
+        if len({frozenset(x) for x in allsig}) == 3:
+            rep.check(False, "R12.5", SCOPED[0] + "._clone_from", "all three copy constructors differ", fn_where(sigs[SCOPED[0]][0]), "", "the three _clone_from implementations all differ in their state updates")
 
     # ---- R12.6: no deep-copy hook hands out the receiver or its shallow state
-    rep.rule("R12.6", "every __deepcopy__ in the data model returns a new object: no `return self`, and the instance dict is never taken over or shallow-copied from the receiver")
-    nh = 0
-    for m in COPY_MODULES[:-1] + [DM + "datasetmodel"]:
-        for f in index.functions_in_module(m):
-            if f.name != "__deepcopy__" or f.cls is None:
-                continue
-            nh += 1
-            if f.qualname in DEEPCOPY_SELF_OK:
-                rep.ob("R12.6", fn_where(f), "%s: exempt - %s" % (f.qualname, DEEPCOPY_SELF_OK[f.qualname]), True, nontrivial=False)
-                continue
-            bad = []
-            for n in walk_no_nested(f.node):
-                if isinstance(n, ast.Return) and isinstance(n.value, ast.Name) and n.value.id == "self":
-                    bad.append((n, "returns the receiver itself"))
-                if isinstance(n, ast.Call) and isinstance(n.func, ast.Attribute) and n.func.attr == "update" and norm(n.func.value).endswith(".__dict__") and n.args and norm(n.args[0]) == "self.__dict__":
-                    bad.append((n, "shallow-copies the receiver's instance dict"))
-                if isinstance(n, ast.Assign) and norm(n.targets[0]).endswith(".__dict__") and "self.__dict__" in norm(n.value):
-                    bad.append((n, "takes over the receiver's instance dict"))
-                if isinstance(n, ast.Call) and norm(n.func) == "copy.copy" and n.args and norm(n.args[0]) == "self":
-                    bad.append((n, "returns a shallow copy"))
-            rep.check(not bad, "R12.6", f.qualname, "__deepcopy__ %s" % (bad[0][1] if bad else ""), fn_where(f, bad[0][0] if bad else None), "%s builds a new object from deep-copied state" % f.qualname,
-                      "%s %s (`%s`): a deep copy of a tree / matrix then shares this object (or the mutable objects it refers to) with the original, so mutating one is visible in the other" % (f.qualname, bad[0][1] if bad else "", norm(bad[0][0])[:60] if bad else ""))
-    rep.floor("R12.6", "__deepcopy__ hooks in the data model", 12, nh)
+    with rep.section("R12.6: no deep-copy hook hands out the receiver or its shallow state"):
+        rep.rule("R12.6", "every __deepcopy__ in the data model returns a new object: no `return self`, and the instance dict is never taken over or shallow-copied from the receiver")
+        nh = 0
+        for m in COPY_MODULES[:-1] + [DM + "datasetmodel"]:
+            for f in index.functions_in_module(m):
+                if f.name != "__deepcopy__" or f.cls is None:
+                    continue
+                nh += 1
+                if f.qualname in DEEPCOPY_SELF_OK:
+                    rep.ob("R12.6", fn_where(f), "%s: exempt - %s" % (f.qualname, DEEPCOPY_SELF_OK[f.qualname]), True, nontrivial=False)
+                    continue
+                bad = []
+                for n in walk_no_nested(f.node):
+                    if isinstance(n, ast.Return) and isinstance(n.value, ast.Name) and n.value.id == "self":
+                        bad.append((n, "returns the receiver itself"))
+                    if isinstance(n, ast.Call) and isinstance(n.func, ast.Attribute) and n.func.attr == "update" and norm(n.func.value).endswith(".__dict__") and n.args and norm(n.args[0]) == "self.__dict__":
+                        bad.append((n, "shallow-copies the receiver's instance dict"))
+                    if isinstance(n, ast.Assign) and norm(n.targets[0]).endswith(".__dict__") and "self.__dict__" in norm(n.value):
+                        bad.append((n, "takes over the receiver's instance dict"))
+                    if isinstance(n, ast.Call) and norm(n.func) == "copy.copy" and n.args and norm(n.args[0]) == "self":
+                        bad.append((n, "returns a shallow copy"))
+                rep.check(not bad, "R12.6", f.qualname, "__deepcopy__ %s" % (bad[0][1] if bad else ""), fn_where(f, bad[0][0] if bad else None), "%s builds a new object from deep-copied state" % f.qualname,
+                          "%s %s (`%s`): a deep copy of a tree / matrix then shares this object (or the mutable objects it refers to) with the original, so mutating one is visible in the other" % (f.qualname, bad[0][1] if bad else "", norm(bad[0][0])[:60] if bad else ""))
+        rep.floor("R12.6", "__deepcopy__ hooks in the data model", 12, nh)
 
     # ---- R12.3
-    c08.thin_clone_rule(index, rep, "R12.3")
+    with rep.section("R12.3"):
+        c08.thin_clone_rule(index, rep, "R12.3")
 
     # ---- R12.4
-    ndef = 0
-    for m in COPY_MODULES[:-1] + [DM + "datasetmodel"]:
-        mod = index.module(m)
-        for f in index.functions_in_module(m):
-            a = f.node.args
-            for d in list(a.defaults) + [x for x in a.kw_defaults if x is not None]:
-                ndef += 1
-                mutable = isinstance(d, (ast.List, ast.Dict, ast.Set)) or (isinstance(d, ast.Call) and call_name(d) in ("list", "dict", "set", "OrderedDict", "defaultdict"))
-                rep.check(not mutable, "R12.4", f.qualname, "mutable default " + norm(d)[:40], fn_where(f, d), "default `%s` of %s is immutable" % (norm(d)[:20], f.name),
-                          "%s has the mutable default argument `%s`: every object created with the default shares one container, so a change through one instance shows through all others" % (f.qualname, norm(d)[:40]))
-        for ci in [c for c in index.classes.values() if c.module is mod]:
-            for attr, val in ci.class_attrs.items():
-                mutable = isinstance(val, (ast.List, ast.Dict, ast.Set)) or (isinstance(val, ast.Call) and call_name(val) in ("list", "dict", "set") and isinstance(val.func, ast.Name))
-                if not mutable:
-                    continue
-                ndef += 1
-                mutated = []
-                for meth in ci.methods.values():
-                    for w in writes_in(meth.node):
-                        if w.attr == attr and isinstance(w.base, ast.Name) and w.base.id == "self" and w.kind in ("mutcall", "substore", "subdel", "augstore"):
-                            mutated.append((meth, w))
-                rebinds = any(w.attr == attr and w.kind == "store" for meth in ci.methods.values() if meth.name == "__init__" for w in writes_in(meth.node))
-                rep.check(not mutated or rebinds, "R12.4", ci.qualname, "class-level %s mutated via self" % attr, "%s:%d" % (mod.relpath, ci.node.lineno), "class attribute %s.%s is not mutated through instances" % (ci.name, attr),
-                          "%s.%s is a class-level mutable container that %s mutates through `self` without an instance-level rebinding in __init__: all instances (source and copies) share it" % (ci.qualname, attr, mutated[0][0].qualname if mutated else ""))
-    rep.floor("R12.4", "defaults and class-level containers examined", 200, ndef)
+    with rep.section("R12.4"):
+        ndef = 0
+        for m in COPY_MODULES[:-1] + [DM + "datasetmodel"]:
+            mod = index.module(m)
+            for f in index.functions_in_module(m):
+                a = f.node.args
+                for d in list(a.defaults) + [x for x in a.kw_defaults if x is not None]:
+                    ndef += 1
+                    mutable = isinstance(d, (ast.List, ast.Dict, ast.Set)) or (isinstance(d, ast.Call) and call_name(d) in ("list", "dict", "set", "OrderedDict", "defaultdict"))
+                    rep.check(not mutable, "R12.4", f.qualname, "mutable default " + norm(d)[:40], fn_where(f, d), "default `%s` of %s is immutable" % (norm(d)[:20], f.name),
+                              "%s has the mutable default argument `%s`: every object created with the default shares one container, so a change through one instance shows through all others" % (f.qualname, norm(d)[:40]))
+            for ci in [c for c in index.classes.values() if c.module is mod]:
+                for attr, val in ci.class_attrs.items():
+                    mutable = isinstance(val, (ast.List, ast.Dict, ast.Set)) or (isinstance(val, ast.Call) and call_name(val) in ("list", "dict", "set") and isinstance(val.func, ast.Name))
+                    if not mutable:
+                        continue
+                    ndef += 1
+                    mutated = []
+                    for meth in ci.methods.values():
+                        for w in writes_in(meth.node):
+                            if w.attr == attr and isinstance(w.base, ast.Name) and w.base.id == "self" and w.kind in ("mutcall", "substore", "subdel", "augstore"):
+                                mutated.append((meth, w))
+                    rebinds = any(w.attr == attr and w.kind == "store" for meth in ci.methods.values() if meth.name == "__init__" for w in writes_in(meth.node))
+                    rep.check(not mutated or rebinds, "R12.4", ci.qualname, "class-level %s mutated via self" % attr, "%s:%d" % (mod.relpath, ci.node.lineno), "class attribute %s.%s is not mutated through instances" % (ci.name, attr),
+                              "%s.%s is a class-level mutable container that %s mutates through `self` without an instance-level rebinding in __init__: all instances (source and copies) share it" % (ci.qualname, attr, mutated[0][0].qualname if mutated else ""))
+        rep.floor("R12.4", "defaults and class-level containers examined", 200, ndef)
